@@ -7,6 +7,18 @@
   Part 3 (Props/C14/Chain.lean): the chain-to-matching (T-join) lemma — generic, with a boundary, for
   the torus and for the planar code — and `toric_mwpm_corrects`, `planar_mwpm_corrects` for all sizes
   without the `ChainBound` hypothesis; `…_all_sizes`: only C13's minimality left as a hypothesis.
+  Part 4 (Props/C14/Bridge.lean): that hypothesis derived from the documented contract of
+  `networkx.max_weight_matching` (`C13.NxContract`) alone: `planar_mwpm_corrects_networkx`,
+  `toric_mwpm_corrects_networkx`; Props/C14/MatesOrder.lean: the order of the mates is immaterial.
+  Props/C14/Instances.lean: the C07 / C08 hypotheses of parts 1 and 2 discharged for every family.
+
+  AUDIT — genuinely open for C14 (none is a Lean statement with a missing proof):
+  * `NxContract` for the REAL networkx routine (Edmonds' blossom algorithm, outside /repo): trusted, tested against the
+    verified optimum on every run by the C13 harness;
+  * the Blossom V backend of `gt.mwpm` (C library absent in this environment): no bridge (statement sketched at the end
+    of Props/C14/Bridge.lean);
+  * the naive decoder: the property's per-component hypothesis is FALSE for it (finding D5, below); the total-weight
+    statement `naive_corrects_partial` is what is proved.
 
   Property theorems only; helper lemmas live in Lemmas/NaiveDecode.lean, Lemmas/MwpmSplit.lean.
 
